@@ -15,7 +15,11 @@ Anything in the target list that cannot be found/parsed/typed is reported (exit 
 Stdlib only.
 
     python3 checks/dl_extract.py [--repo /repo] [--out FILE] [--check] [--print]
-    generate(repo) -> (ok, text, problems)        pure_cases(rng) -> list[str]
+        exit 0 = translated (file rewritten only when its content changed); 1 = something in the target
+        list could not be translated (file NOT written); 2 = translated and written, but a constant's
+        value differs from the built-in x86_64 expectation (source changed a value, or translator bug)
+    generate(repo) -> (ok, text, problems)        split_problems(problems) -> (hard, selfcheck)
+    pure_cases(rng, n_random=200) -> list[str]
 """
 import os
 import re
@@ -905,6 +909,12 @@ def generate(repo="/repo"):
     return (not problems), "\n".join(out), problems
 
 
+def split_problems(problems):
+    """-> (translation problems, self-check value mismatches)"""
+    soft = [p for p in problems if p.startswith("self-check: ") and "evaluates to" in p]
+    return [p for p in problems if p not in soft], soft
+
+
 def write_if_changed(path, text):
     try:
         with open(path, encoding="utf-8") as f:
@@ -1000,11 +1010,18 @@ def main(argv=None):
         if not same:
             print("dl_extract: %s is stale" % a.out, file=sys.stderr)
         return 0 if (ok and same) else 1
-    if not ok:
+    hard, soft = split_problems(problems)
+    if hard:
         print("dl_extract: %d problem(s); %s NOT written" % (len(problems), a.out), file=sys.stderr)
         return 1
     changed = write_if_changed(a.out, text)
     print("dl_extract: %s %s" % (a.out, "written" if changed else "unchanged"))
+    if soft:
+        # everything was translated, but a value differs from the x86_64 expectation: either the source
+        # changed a constant (then the Lean lemmas `…_eq` and the differential run say so too) or a
+        # translator bug; the file is written so that both can be examined
+        print("dl_extract: %d self-check mismatch(es)" % len(soft), file=sys.stderr)
+        return 2
     return 0
 
 
